@@ -75,7 +75,7 @@ func (w *worker) useCfg(i int) {
 	w.f4 = nil
 	w.cfgIdx = i
 	w.st = &appState{qs: w.qs, file: w.file}
-	w.app = buildApp(&cfgs[i], w.st)
+	w.app = buildApp(&cfgsAll[i], w.st)
 	// warm-up, not judged: one-time initialisations (encoder caches, decoder tables, pools) are
 	// not a per-request cost
 	for _, q := range warmRequests {
@@ -90,7 +90,7 @@ var warmRequests = []string{
 	"GET /h/Set?i=1 HTTP/1.1\r\nHost: h\r\n\r\n",
 }
 
-func (w *worker) cfg() *cfgT { return &cfgs[w.cfgIdx] }
+func (w *worker) cfg() *cfgT { return &cfgsAll[w.cfgIdx] }
 
 // sample keeps at most two explored cases per family (and hands them to core's l.Sample).
 func (w *worker) sample(fam string, v map[string]any) {
@@ -270,7 +270,7 @@ type judgeOpts struct {
 	allocTrigger string // names the input class in an allocation signature
 	minTrigger   func() string // optional: narrows the class (called only when the budget is exceeded)
 	parseSig     func(*ParseErr) string // family 3: classifies a response-syntax error per helper
-	inputCls     string                 // family 4: names the input class (kind of application shape) in panic signatures; the target class is in the case
+	inputCls     string                 // families 4, 5: names the input class (kind of application shape) in panic signatures; the target class is in the case
 }
 
 // judgeCommon applies oracles (i) panic, (iii) allocation, (iv) strict parse + response count,
@@ -756,4 +756,63 @@ func (w *worker) runF4(a *f4App, method string, t *target4) {
 	} else {
 		l.Add("unspecified_skipped", 1)
 	}
+}
+
+// ---------------------------------------------------------------------------
+// family 5: request-header parsers x repetition grammars
+
+func (w *worker) runF5Shard(u *unit5) {
+	p := &parsers5[u.P]
+	reached := 0
+	var buf []byte
+	enumSeqs5(p, func(seq []int, sep string) {
+		buf = build5(buf, u, seq, sep)
+		if w.runF5(u, seq, sep, buf) {
+			reached++
+		}
+	})
+	if reached == 0 && w.only < 0 && len(w.skip) == 0 && w.after == 0 && w.cfg().Name != "smallbuf" { // smallbuf: BodyLimit 64 legitimately refuses the larger bodies
+		core.Fatal("family 5: no value of parser %s reached the /all handler (config %s)", p.Name, w.cfg().Name)
+	}
+}
+
+func (w *worker) runF5(u *unit5, seq []int, sep string, req []byte) bool {
+	p := &parsers5[u.P]
+	desc := func() map[string]any {
+		var el []string
+		for _, i := range seq {
+			el = append(el, p.Elems[i])
+		}
+		return map[string]any{"family": "f5-repetition", "config": w.cfg().Name, "parser": p.Name, "prefix": u.Prefix, "elements": el, "separator": sepName(sep),
+			"companions": u.Comp, "body_encoded": u.Encoded, "request": clipReq(req)}
+	}
+	if !w.begin(desc) {
+		return false
+	}
+	l := w.l
+	res := w.exec(req)
+	l.Add("evaluations", 1)
+	l.Add("f5_cases", 1)
+	if w.firstTime(req) && len(seq) > 0 {
+		l.Add("nontrivial", 1)
+	}
+	hasBody := p.Post || p.Where == "body"
+	first := w.judgeCommon(req, res, desc, judgeOpts{fam: "f5", exactlyOne: !hasBody, allocTrigger: "f5:" + p.Name, inputCls: "f5 parser=" + p.Name})
+	st := 0
+	if first != nil {
+		st = first.Status
+	}
+	l.Outcome(fmt.Sprintf("f5 st=%d eh=%d ran=%d n=%d range=%s fresh=%v flash=%d body=%s", st, w.st.ehCode, w.st.ran, len(res.resps), w.st.rangeCls, w.st.fresh, min(w.st.flashN, 3), w.st.bodyCls))
+	if w.caseNo%50021 == 0 {
+		w.sample("f5", map[string]any{"case": desc(), "status": st, "handler_ran": w.st.ran, "alloc_bytes": res.alloc})
+	}
+	if w.st.rangeCls == "OUTSIDE" {
+		l.Violate("range-outside-size", "Range(1000) returned a range outside [0,1000): slicing the 1000-byte entity with it panics in the handler", desc(), nil, "0 <= Start <= End <= 999")
+	}
+	ran := w.st.ran > 0
+	if res.pan != nil {
+		w.app = nil
+		w.useCfg(w.cfgIdx)
+	}
+	return ran
 }
